@@ -14,3 +14,5 @@ import PlasVerif.Properties.C10
 import PlasVerif.Properties.C11
 import PlasVerif.Properties.C13
 import PlasVerif.Properties.C14
+import PlasVerif.Properties.C06
+import PlasVerif.Properties.C05
